@@ -87,10 +87,13 @@ def run_checks(worker, pid, k, meta, patch=None):
 
 def main():
     args = sys.argv[1:]
-    workers, only, recheck, from_seeded = 4, None, False, False
+    workers, only, recheck, from_seeded, wbase = 4, None, False, False, 0
     while args and args[0].startswith("--"):
         if args[0] == "--workers":
             workers = int(args[1]); args = args[2:]
+        elif args[0] == "--worker-base":
+            # first scratch worktree index (two runs of this script can then work side by side)
+            wbase = int(args[1]); args = args[2:]
         elif args[0] == "--only":
             only = set(args[1].split(",")); args = args[2:]
         elif args[0] == "--round":
@@ -121,7 +124,7 @@ def main():
                 if only and name not in only:
                     continue
                 jobs.append((pid, k))
-    for w in range(workers):
+    for w in range(wbase, wbase + workers):
         if not os.path.exists("/tmp/sw_%d" % w):
             sh("git -C /repo worktree add --detach /tmp/sw_%d HEAD -q" % w)
         os.makedirs("/tmp/sw_%d_out" % w, exist_ok=True)
@@ -185,7 +188,7 @@ def main():
             with lock:
                 print(pid, k + OFFSET, meta.get("demo_without_patch"), meta.get("suite_with_patch"), meta.get("demo_with_patch"),
                       [(r["check"], r["detected"], r.get("no_failing_input")) for r in meta["ran"]], meta.get("error", ""), flush=True)
-    ts = [threading.Thread(target=work, args=(w,)) for w in range(workers)]
+    ts = [threading.Thread(target=work, args=(w,)) for w in range(wbase, wbase + workers)]
     for t in ts:
         t.start()
     for t in ts:
